@@ -10,6 +10,7 @@ import WowVerif.Lemmas.C01Whole
 import WowVerif.Lemmas.C01Bet
 import WowVerif.Lemmas.C01Het
 import WowVerif.Lemmas.C01Header
+import WowVerif.Lemmas.C01HeaderFacts
 namespace Wv.C01
 open Wv Wv.Mpq
 
@@ -177,6 +178,11 @@ theorem header_roundtrip (h : Hdr.Hdr) (hw : Hdr.WF h) (rest : Bytes) : Hdr.pars
     the bytes the writer emits for it — no byte of an accepted header is ignored, and a second write is byte-identical -/
 theorem header_accepts_only_wellformed (bs : Bytes) (h : Hdr.Hdr) (hp : Hdr.parse bs = .ok h) :
     Hdr.WF h ∧ ∃ rest, bs = Hdr.write h ++ rest := Hdr.write_parse bs h hp
+
+/-- the header the builder writes (header size = its version's size) occupies exactly the announced number of bytes:
+    32 / 44 / 68 / 208, so the file data that follows starts where the header says it ends -/
+theorem header_length (h : Hdr.Hdr) (hw : Hdr.WF h) (hs : h.headerSize = Hdr.minSize h.version) :
+    (Hdr.write h).length = h.headerSize := Hdr.write_length h hw hs
 
 /-- the generic fact behind every fixed-layout record of the formats: fields written one after the other are read back
     one after the other, for every layout (list of widths) and every list of values that fit -/
